@@ -53,17 +53,34 @@ Definition glue (ops : list str) : str :=
 Definition sp : char := 32.
 Definition is_sp_ws (c : char) : bool := is_whitespace c.
 
-(* the first parenthesis of the text closes at its end: every prefix but the whole text is inside it *)
-Fixpoint parens_wrap (depth : Z) (s : str) : bool :=
+(* the first parenthesis of the text closes at its end: every prefix but the whole text is inside it.  Doc comments
+   (`/* .. */`) and string literals are not looked into. *)
+Fixpoint parens_wrap (depth : nat) (in_comment in_string : bool) (s : str) : bool :=
   match s with
   | [] => true
-  | c :: r => let d := if c =? 40 then (depth + 1)%Z else if c =? 41 then (depth - 1)%Z else depth in
-              ((0 <? d)%Z || match r with [] => true | _ => false end) && parens_wrap d r
+  | c :: r =>
+      if in_comment then
+        match s with
+        | 42 :: 47 :: r' => parens_wrap depth false false r'
+        | _ => parens_wrap depth true false r
+        end
+      else if in_string then parens_wrap depth false (negb (c =? 34)) r
+      else
+        match s with
+        | 47 :: 42 :: r' => parens_wrap depth true false r'
+        | _ =>
+            if c =? 34 then parens_wrap depth false true r
+            else if c =? 40 then parens_wrap (S depth) false false r
+            else if c =? 41 then
+              let d := Nat.pred depth in
+              if Nat.ltb 0 d || match r with [] => true | _ => false end then parens_wrap d false false r else false
+            else parens_wrap depth false false r
+        end
   end.
 
 (* named.rs, a lone flattened field: parentheses around the whole text are dropped *)
 Definition unwrap_text (s : str) : str :=
-  if starts_with [40] s && ends_with [41] s && parens_wrap 0 s
+  if starts_with [40] s && ends_with [41] s && parens_wrap 0 false false s
   then trim_chars is_sp_ws (removelast (tl s))
   else trim_chars is_sp_ws s.
 
